@@ -91,7 +91,53 @@ theorem old_soc_corner_differs :
     cornerPathOld Finv (1, 1, 1) (fun _ => 1) φ up down (0, 0, 0) = 32 := by
   decide +kernel
 
+/-! ## T3 — phonon systems -/
+
+/-- T3a.  `phonon_freq_from_square` = `sign(E)·g(|E|)` (with `g` the square root on `[0,∞)`) is an odd map, and monotone
+    whenever `g` is monotone and non-negative on `[0,∞)` — so it keeps the ascending order in which `eigvalsh` returns the
+    bands, for negative ("imaginary-frequency") eigenvalues too. -/
+theorem phonon_map_odd_monotone {K : Type} [Field K] [LinearOrder K] [IsStrictOrderedRing K] (g : K → K)
+    (h0 : g 0 = 0) (hg : ∀ x y, 0 ≤ x → x ≤ y → g x ≤ g y) (hpos : ∀ x, 0 ≤ x → 0 ≤ g x) :
+    (∀ E, phononFreq g (-E) = -phononFreq g E) ∧ (∀ E E', E ≤ E' → phononFreq g E ≤ phononFreq g E') :=
+  ⟨phononFreq_odd g h0, phononFreq_mono g hg hpos⟩
+
+/-- T3b (corner theorem for phonon systems).  The map is applied entrywise AFTER the diagonalisation of the corner matrix;
+    since that matrix is the dynamical matrix at the corner k-point (`parallelepiped_corner_hamiltonian`), the corner
+    frequencies are the frequencies at the corner k-points — for every spectrum routine `spec` (eigvalsh) and every
+    entrywise map `f` (here `phononFreq g`), every FFT box size, under the inverse-DFT contract. -/
+theorem phonon_corner_frequencies {K E : Type} [Field K] {A : Type} [AddCommGroup A] {ex : A → K} (hex : IsExp ex)
+    (N : Mesh) (h1 : 0 < N.1) (h2 : 0 < N.2.1) (h3 : 0 < N.2.2)
+    (χ : Vec3 → Vec3 → K) (hper : ∀ m R, χ m R = χ m (vmod R N))
+    (Finv : (Vec3 → K) → Vec3 → K) (hF : IDFTContract N χ Finv)
+    (m : Vec3) (hm : m ∈ gridPoints N) (km kK h : A × A × A)
+    (hχ : ∀ R, χ m R = ex (kdot km R))
+    (χd : Vec3 → K) (hχd : ∀ R, χd R = ex (kdot kK R)) (ix iy iz : Bool)
+    (entries : Nat → Nat → List (Vec3 × K)) (spec : (Nat → Nat → K) → List E) (f : E → E) :
+    (spec fun a b => cornerPath Finv N χd
+        (cornerPhase (fun r => ex (r • h.1)) (fun r => ex (r • h.2.1)) (fun r => ex (r • h.2.2)) ix iy iz) (entries a b) m).map f
+      = (spec fun a b => explicitSum (fun R => ex (kdot (kadd (kadd km kK) (cornerVec h ix iy iz)) R)) (entries a b)).map f := by
+  congr 2
+  funext a b
+  exact parallelepiped_corner_hamiltonian hex N h1 h2 h3 χ hper Finv hF m hm km kK h hχ χd hχd ix iy iz (entries a b)
+
+/-! ## T4 — k.p systems -/
+
+/-- T4.  `Data_K_k.E_K_corners_*` evaluates the user's Hamiltonian at `fold((p + dK) mod 1 + v)`; this is the direct
+    evaluation `fold(p + dK + v)` at the corner k-point: reducing the FFT k-point modulo 1 first changes nothing because
+    the folding `k ↦ (k + ½) mod 1 − ½` of `SystemKP` is 1-periodic — for every Hamiltonian function (any codomain), every
+    FFT point `p`, shift `dK` and corner / vertex vector `v`. -/
+theorem kp_corner_is_direct_evaluation {α : Type} (ham : QVec3 → α) (p dK v : QVec3) :
+    kpCorner ham p dK v = kpDirect ham p dK v :=
+  kpCorner_eq_kpDirect ham p dK v
+
 /-! ## non-vacuity -/
+
+/-- the phonon map on perfect squares, both signs: `[-9/4, 0, 1/4, 4] ↦ [-3/2, 0, 1/2, 2]` -/
+example : [(-9 / 4 : Rat), 0, 1 / 4, 4].map (phononFreq sqrtExact) = [-3 / 2, 0, 1 / 2, 2] := by decide +kernel
+
+/-- folding: the FFT point 2/3 + dK 5/6 reduced mod 1 is 1/2; with the corner vector 1/8 the folded argument is −3/8,
+    the same as folding 2/3 + 5/6 + 1/8 directly -/
+example : fold1 (frac1 (2 / 3 + 5 / 6) + 1 / 8) = -3 / 8 ∧ fold1 (2 / 3 + 5 / 6 + 1 / 8) = -3 / 8 := by decide +kernel
 
 /-- `IsExp` is satisfiable non-trivially: `ex r = 2^r` on `A = ℤ`, `K = ℚ` -/
 example : IsExp (K := ℚ) (A := ℤ) (fun r => (2 : ℚ) ^ r) :=
